@@ -633,7 +633,7 @@ type c04result struct {
 	err error
 }
 
-const c04emptyCase = "mkcase (mkcfg [] 1 0 [] []) [] [] [] []"
+const c04emptyCase = "mkcase (mkc [] 1 0 [] []) [] [] [] []"
 
 func c04run(tmp string, idx int, h c04hist, kind string) c04result {
 	fail := func(err error) c04result {
@@ -687,7 +687,7 @@ func c04run(tmp string, idx int, h c04hist, kind string) c04result {
 		}
 		if try >= 2 {
 			// the real stack died on this history (panic): reported as a disagreement, not skipped
-			return c04result{cs: hlib.Case{Coq: "mkcase (mkcfg [] 1 0 [] []) [OProbe] [] [CBad 0] []", Kind: kind + "-child-died",
+			return c04result{cs: hlib.Case{Coq: "mkcase (mkc [] 1 0 [] [1]) [OProbe] [] [CBad 0] []", Kind: kind + "-child-died",
 				Tags: []string{"child-died"}, Sample: map[string]string{"error": cerr.Error(), "history": string(hb)}}, err: cerr}
 		}
 	}
@@ -807,7 +807,7 @@ func c04run(tmp string, idx int, h c04hist, kind string) c04result {
 			break
 		}
 	}
-	cfgq := fmt.Sprintf("(mkcfg %s %d %d %s %s)", hlib.Bytes(h.Blob), h.PL, h.WPS, hlib.Bytes(co.MI), hlib.Bytes(lat))
+	cfgq := fmt.Sprintf("(mkc %s %d %d %s %s)", hlib.Bytes(h.Blob), h.PL, h.WPS, hlib.Bytes(co.MI), hlib.Bytes(lat))
 	var rle []string
 	for i := 0; i < len(recs); {
 		j := i
@@ -817,7 +817,15 @@ func c04run(tmp string, idx int, h c04hist, kind string) c04result {
 		rle = append(rle, fmt.Sprintf("(%d%%nat, %s)", j-i, recs[i]))
 		i = j
 	}
-	coq := fmt.Sprintf("mkcase %s %s %s %s %s", cfgq, hlib.List(sops), hlib.List(sobs), hlib.List(strace), hlib.List(rle))
+	// the serialised metainfo and the blob occur many times: bind them once
+	body := fmt.Sprintf("mkcase %s %s %s %s %s", cfgq, hlib.List(sops), hlib.List(sobs), hlib.List(strace), hlib.List(rle))
+	if len(co.MI) > 0 {
+		body = strings.ReplaceAll(body, hlib.Bytes(co.MI), "mi")
+	}
+	if len(h.Blob) > 2 {
+		body = strings.ReplaceAll(body, hlib.Bytes(h.Blob), "bl")
+	}
+	coq := fmt.Sprintf("let mi : bytes := %s in let bl : bytes := %s in %s", hlib.Bytes(co.MI), hlib.Bytes(h.Blob), body)
 	sample := map[string]interface{}{"blob": h.Blob, "piece_length": h.PL, "write_part_size": h.WPS, "ops": sops, "trace": strace,
 		"crash_points": nm + 1, "recoveries_reporting_complete": recComplete, "recovered_at_last_point": recs[len(recs)-1]}
 	return c04result{cs: hlib.Case{Coq: coq, NT: committed && nm >= 10, Kind: kind, Hist: hist, Tags: tags, Sample: sample,
